@@ -11,7 +11,7 @@ import OpusModel.Gen.SilkPlcCngConsts
   silk/macros.h:99-101 (silk_ADD_SAT32), silk/Inlines.h:63-92 (silk_SQRT_APPROX),
   silk/sum_sqr_shift.c:36-82, silk/bwexpander.c:36-51, silk/LPC_analysis_filter.c:48-111 (the
   non-FIXED_POINT branch, which is the one compiled in this float build), and the order-10/16 LPC
-  synthesis loop that PLC.c:371-398 and CNG.c:153-183 share.
+  synthesis loop that PLC.c:374-398 and CNG.c:154-183 share.
 
   Conventions as in C18's Fix.lean: `opus_int32` values are unbounded `Int`s; plain C `+ - *` is the
   unbounded operation (where that differs from the machine result the C program has signed overflow,
@@ -112,15 +112,15 @@ def lpcAnalysisFilter (x : Array Int) (base : Int) (B : List Int) (len : Int) : 
   else .ok ((List.replicate B.length 0) ++
             (List.range (len - d).toNat).map fun (t : Nat) => firSample x B (base + d + (t : Int)))
 
-/-! ### the LPC synthesis loop shared by PLC.c:371-398 and CNG.c:153-183 -/
+/-! ### the LPC synthesis loop shared by PLC.c:374-398 and CNG.c:154-183 -/
 
-/-- `LPC_pred_Q10` (PLC.c:376-389 / CNG.c:156-175): start value `order >> 1`, then one `silk_SMLAWB` per tap;
+/-- `LPC_pred_Q10` (PLC.c:377-390 / CNG.c:156-174): start value `order >> 1`, then one `silk_SMLAWB` per tap;
     `st` holds `sLPC_Q14_ptr[MAX_LPC_ORDER + i - 1], [… - 2], …` (most recent first). -/
 def lpcPred : List Int → List Int → Int → Int
   | a :: as, s :: ss, acc => lpcPred as ss (smlawb acc s a)
   | _, _, acc => acc
 
-/-- One synthesis step: new `sLPC_Q14_ptr[MAX_LPC_ORDER + i]` (PLC.c:392-393 / CNG.c:178). -/
+/-- One synthesis step: new `sLPC_Q14_ptr[MAX_LPC_ORDER + i]` (PLC.c:393-394 / CNG.c:177). -/
 def synthStep (A : List Int) (st : List Int) (e : Int) : Int :=
   addSat32 e (lshiftSat32 (lpcPred A st ((A.length : Int) / 2)) 4)
 
